@@ -1,8 +1,15 @@
-/* sets: static_set / flat_set / flat_multiset against the std::set reference semantics ([associative.reqmts], [flat.set]) — C09.
+/* sets: static_set / flat_set / flat_multiset against the std::set reference semantics ([associative.reqmts], [flat.set]) - C09 (C02 rides along).
  * Every harness starts from an ARBITRARY well-formed object (all bytes symbolic, constrained by wf only).
- * view(s) = (n, a[0..n)); wf(s) = n <= N and a strictly ascending under the set's comparator.  Reference semantics are linear
- * scans over views, written independently of the implementation; "same key" is comparator equivalence, never ==.
- * Membership is additionally stated for an arbitrary ghost key g (VF_INPUT): proving it for a symbolic g proves it for all keys. */
+ * view(s) = (n, a[0..n)); wf(s) = n <= N and a strictly ascending under the set's comparator (multiset: non-descending).  Reference semantics
+ * are linear scans over views, written independently of the implementation; "same key" is comparator equivalence, never ==.
+ * Membership is stated for an arbitrary ghost key g (VF_INPUT): proving it for a symbolic g proves it for all keys.
+ * Entry-point prefixes: ss_/ssg_/sst_ static_set<int,N,{less<int>,greater<int>,less<>}>, fs_/fsg_/fst_ flat_set<int,static_vector<int,N>,...>,
+ * fsi_ flat_set<int,inplace_vector<int,N>> (no modifiers: inplace_vector lacks emplace(pos)/erase/assignment), fm_/fmg_/fmi_ flat_multiset.
+ * Not expressible: static_set::equal_range (does not compile: returns pair as iterator), flat_set::insert(sorted_unique_t, first, last)
+ * (declared, never defined), static_set has no hint insert / erase_if / extract.
+ * solver=kissat everywhere: MiniSat livelocks on some of these (tiny) instances.
+ * thorough only: insert(first,last)/range construction for every instantiation but ss_ (fs_ctor_cont runs the same fold in quick), the hint
+ * overloads of flat_set, flat_set(container) for greater/transparent, the (known-broken) insert iterator of ssg_/sst_.  Everything else is quick. */
 #define N VF_N
 #define CAT_(a, b) a##b
 #define CAT(a, b) CAT_(a, b)
@@ -160,13 +167,13 @@ _Static_assert(N == 4, "SAME_BYTES enumerates the slots of capacity 4");
 /* lookups with a key of the key type: the answers of a linear scan under the same comparator; nothing is modified.  Cells: one per function. */
 #define H_LOOKUP(P, C) void h_##P##_lookup(void) { ARB(P, C, s, o); VF_INPUT(int, k); P##_t s0 = s; int *b = BASE(P, s); \
   if (ON(0)) VF_ASSERT(P##_lower_bound(&s, &k) == b + v_lb(o, C, k), "lower_bound(k): first element not before k (linear scan)"); \
-  if (ON(1)) VF_ASSERT(P##_clower_bound(&s, &k) == b + v_lb(o, C, k), "lower_bound(k) const: first element not before k (linear scan)"); \
-  if (ON(2)) VF_ASSERT(P##_upper_bound(&s, &k) == b + v_ub(o, C, k), "upper_bound(k): first element after k (linear scan)"); \
-  if (ON(3)) VF_ASSERT(P##_cupper_bound(&s, &k) == b + v_ub(o, C, k), "upper_bound(k) const: first element after k (linear scan)"); \
-  if (ON(4)) VF_ASSERT(P##_find(&s, &k) == b + v_find(o, C, k), "find(k): the element equivalent to k, end() if there is none"); \
-  if (ON(5)) VF_ASSERT(P##_cfind(&s, &k) == b + v_find(o, C, k), "find(k) const: the element equivalent to k, end() if there is none"); \
-  if (ON(6)) VF_ASSERT(P##_contains(&s, &k) == v_member(o, C, k), "contains(k) == member(k)"); \
-  if (ON(7)) VF_ASSERT(P##_count(&s, &k) == (v_member(o, C, k) ? 1 : 0), "count(k) is 1 for a member, 0 otherwise"); \
+  if (ON(0)) VF_ASSERT(P##_clower_bound(&s, &k) == b + v_lb(o, C, k), "lower_bound(k) const: first element not before k (linear scan)"); \
+  if (ON(1)) VF_ASSERT(P##_upper_bound(&s, &k) == b + v_ub(o, C, k), "upper_bound(k): first element after k (linear scan)"); \
+  if (ON(1)) VF_ASSERT(P##_cupper_bound(&s, &k) == b + v_ub(o, C, k), "upper_bound(k) const: first element after k (linear scan)"); \
+  if (ON(2)) VF_ASSERT(P##_find(&s, &k) == b + v_find(o, C, k), "find(k): the element equivalent to k, end() if there is none"); \
+  if (ON(2)) VF_ASSERT(P##_cfind(&s, &k) == b + v_find(o, C, k), "find(k) const: the element equivalent to k, end() if there is none"); \
+  if (ON(3)) VF_ASSERT(P##_contains(&s, &k) == v_member(o, C, k), "contains(k) == member(k)"); \
+  if (ON(3)) VF_ASSERT(P##_count(&s, &k) == (v_member(o, C, k) ? 1 : 0), "count(k) is 1 for a member, 0 otherwise"); \
   VF_ASSERT(SAME_BYTES(P, s, s0), "lookups do not modify the set"); VF_REACH(); }
 #define H_EQUAL_RANGE(P, C) void h_##P##_equal_range(void) { ARB(P, C, s, o); VF_INPUT(int, k); P##_t s0 = s; int *b = BASE(P, s); int *lo = 0, *hi = 0; const int *clo = 0, *chi = 0; \
   if (ON(0)) { P##_equal_range(&s, &k, &lo, &hi); VF_ASSERT(lo == b + v_lb(o, C, k) && hi == b + v_ub(o, C, k), "equal_range(k) == (lower_bound(k), upper_bound(k)) of the linear scan"); \
@@ -174,18 +181,18 @@ _Static_assert(N == 4, "SAME_BYTES enumerates the slots of capacity 4");
   if (ON(1)) { P##_cequal_range(&s, &k, &clo, &chi); VF_ASSERT(clo == b + v_lb(o, C, k) && chi == b + v_ub(o, C, k), "equal_range(k) const == (lower_bound(k), upper_bound(k)) of the linear scan"); } \
   VF_ASSERT(SAME_BYTES(P, s, s0), "equal_range does not modify the set"); VF_REACH(); }
 /* heterogeneous lookup through a transparent comparator: key of type long, compared as less<void> does (int promoted to long) */
-#define H_LOOKUP_H(P, C, KNOWN) void h_##P##_lookup_h(void) { ARB(P, C, s, o); VF_INPUT(long, k); P##_t s0 = s; int *b = BASE(P, s); \
+#define H_LOOKUP_H(P, C) void h_##P##_lookup_h(void) { ARB(P, C, s, o); VF_INPUT(long, k); P##_t s0 = s; int *b = BASE(P, s); \
   if (ON(0)) VF_ASSERT(P##_lower_bound_h(&s, &k) == b + v_lb(o, C, k), "lower_bound(K): first element not before k (linear scan)"); \
-  if (ON(1)) VF_ASSERT(P##_clower_bound_h(&s, &k) == b + v_lb(o, C, k), "lower_bound(K) const: first element not before k (linear scan)"); \
-  if (ON(2)) VF_ASSERT(P##_upper_bound_h(&s, &k) == b + v_ub(o, C, k), "upper_bound(K): first element after k (linear scan)"); \
-  if (ON(3)) VF_ASSERT(P##_cupper_bound_h(&s, &k) == b + v_ub(o, C, k), "upper_bound(K) const: first element after k (linear scan)"); \
-  VF_ASSERT(SAME_BYTES(P, s, s0), "heterogeneous lookups do not modify the set"); \
-  KNOWN; \
-  if (ON(4)) VF_ASSERT(P##_find_h(&s, &k) == b + v_find(o, C, k), "find(K): the element equivalent to k, end() if there is none"); \
-  if (ON(5)) VF_ASSERT(P##_cfind_h(&s, &k) == b + v_find(o, C, k), "find(K) const: the element equivalent to k, end() if there is none"); \
-  if (ON(6)) VF_ASSERT(P##_contains_h(&s, &k) == v_member(o, C, k), "contains(K) == member(k)"); \
-  if (ON(7)) VF_ASSERT(P##_count_h(&s, &k) == (v_member(o, C, k) ? 1 : 0), "count(K) is 1 for a member, 0 otherwise"); \
-  VF_REACH(); }
+  if (ON(0)) VF_ASSERT(P##_clower_bound_h(&s, &k) == b + v_lb(o, C, k), "lower_bound(K) const: first element not before k (linear scan)"); \
+  if (ON(1)) VF_ASSERT(P##_upper_bound_h(&s, &k) == b + v_ub(o, C, k), "upper_bound(K): first element after k (linear scan)"); \
+  if (ON(1)) VF_ASSERT(P##_cupper_bound_h(&s, &k) == b + v_ub(o, C, k), "upper_bound(K) const: first element after k (linear scan)"); \
+  VF_ASSERT(SAME_BYTES(P, s, s0), "heterogeneous lookups do not modify the set"); VF_REACH(); }
+#define H_FIND_H(P, C, KNOWN) void h_##P##_find_h(void) { ARB(P, C, s, o); VF_INPUT(long, k); P##_t s0 = s; int *b = BASE(P, s); KNOWN; \
+  if (ON(0)) VF_ASSERT(P##_find_h(&s, &k) == b + v_find(o, C, k), "find(K): the element equivalent to k, end() if there is none"); \
+  if (ON(0)) VF_ASSERT(P##_cfind_h(&s, &k) == b + v_find(o, C, k), "find(K) const: the element equivalent to k, end() if there is none"); \
+  if (ON(1)) VF_ASSERT(P##_contains_h(&s, &k) == v_member(o, C, k), "contains(K) == member(k)"); \
+  if (ON(1)) VF_ASSERT(P##_count_h(&s, &k) == (v_member(o, C, k) ? 1 : 0), "count(K) is 1 for a member, 0 otherwise"); \
+  VF_ASSERT(SAME_BYTES(P, s, s0), "heterogeneous lookups do not modify the set"); VF_REACH(); }
 #define H_EQUAL_RANGE_H(P, C) void h_##P##_equal_range_h(void) { ARB(P, C, s, o); VF_INPUT(long, k); int *b = BASE(P, s); int *lo = 0, *hi = 0; const int *clo = 0, *chi = 0; \
   if (ON(0)) { P##_equal_range_h(&s, &k, &lo, &hi); VF_ASSERT(lo == b + v_lb(o, C, k) && hi == b + v_ub(o, C, k), "equal_range(K) == (lower_bound, upper_bound) of the linear scan"); } \
   if (ON(1)) { P##_cequal_range_h(&s, &k, &clo, &chi); VF_ASSERT(clo == b + v_lb(o, C, k) && chi == b + v_ub(o, C, k), "equal_range(K) const == (lower_bound, upper_bound) of the linear scan"); } VF_REACH(); }
@@ -213,14 +220,16 @@ _Static_assert(N == 4, "SAME_BYTES enumerates the slots of capacity 4");
   INSERT_CALL_SS(P); INSERT_POST(P, C); VF_REACH(); }
 /* the iterator of the result (its own group: the check carries known findings whose probes re-run the group) */
 #define H_INSERT_ITER_SS(P, C, KNOWN) void h_##P##_insert_iter(void) { ARB(P, C, s, o); VF_INPUT(int, k); VF_INPUT(unsigned char, which); CELL_W(which); __CPROVER_assume(which <= 2); __CPROVER_assume(o.n < N || v_member(o, C, k)); \
-  INSERT_CALL_SS(P); (void)ins; view_t e = sp_insert(o, C, k); KNOWN; \
-  VF_ASSERT(it == BASE(P, s) + v_find(e, C, k), "insert(k).first: iterator to the element equivalent to k (the new one or the one that prevented the insertion)"); VF_REACH(); }
-#define H_INSERT_FS(P, C) void h_##P##_insert(void) { ARB(P, C, s, o); VF_INPUT(int, k); VF_INPUT(unsigned char, which); VF_INPUT(unsigned char, hint); CELL_W(which); __CPROVER_assume(which <= 5); __CPROVER_assume((o.n < N || v_member(o, C, k)) && hint <= o.n); \
+  INSERT_CALL_SS(P); (void)ins; view_t e = sp_insert(o, C, k); VF_REACH(); /* before the known-finding classes: together they currently cover every input */ KNOWN; \
+  VF_ASSERT(it == BASE(P, s) + v_find(e, C, k), "insert(k).first: iterator to the element equivalent to k (the new one or the one that prevented the insertion)"); }
+#define INSERT_FS_BODY(P, C, LO) ARB(P, C, s, o); VF_INPUT(int, k); VF_INPUT(unsigned char, which); VF_INPUT(unsigned char, hint); CELL_W(which); __CPROVER_assume(which >= LO && which <= LO + 2); __CPROVER_assume((o.n < N || v_member(o, C, k)) && hint <= o.n); \
   int *it = 0; _Bool ins = !v_member(o, C, k); const int *h = BASE(P, s) + hint; \
   switch (which) { case 0: ins = P##_insert(&s, &k, &it); break; case 1: ins = P##_insert_rv(&s, k, &it); break; case 2: ins = P##_emplace(&s, k, &it); break; \
     case 3: it = P##_insert_hint(&s, h, &k); break; case 4: it = P##_insert_hint_rv(&s, h, k); break; default: it = P##_emplace_hint(&s, h, k); break; } \
   INSERT_POST(P, C); \
-  VF_ASSERT(it == BASE(P, s) + v_find(e, C, k), "insert/emplace[_hint](k): iterator to the element equivalent to k (the new one or the one that prevented the insertion), whatever the hint"); VF_REACH(); }
+  VF_ASSERT(it == BASE(P, s) + v_find(e, C, k), "insert/emplace[_hint](k): iterator to the element equivalent to k (the new one or the one that prevented the insertion), whatever the hint"); VF_REACH();
+#define H_INSERT_FS(P, C) void h_##P##_insert(void) { INSERT_FS_BODY(P, C, 0) }
+#define H_INSERT_HINT_FS(P, C) void h_##P##_insert_hint(void) { INSERT_FS_BODY(P, C, 3) }
 /* static_set, full set, new key: the insertion is refused (second == false) and nothing changes */
 #define H_INSERT_FULL_SS(P, C) void h_##P##_insert_full(void) { VF_INPUT(P##_t, s); P##_SZ(s) = N; view_t o; VIEW(o, P##_SZ, P##_EL, s); __CPROVER_assume(v_wf(o, C)); VF_INPUT(int, k); VF_INPUT(unsigned char, which); CELL_W(which); __CPROVER_assume(which <= 2); __CPROVER_assume(!v_member(o, C, k)); P##_t s0 = s; \
   INSERT_CALL_SS(P); (void)it; \
@@ -242,8 +251,9 @@ _Static_assert(N == 4, "SAME_BYTES enumerates the slots of capacity 4");
   P##_ctor_range(&s, src, src + c); NOW(P, s, w); RANGE_SPEC(C); RANGE_POST(C, "set(first,last)"); VF_REACH(); }
 
 /* erase(key) */
-#define H_ERASE_KEY(P, C, KNOWN) void h_##P##_erase_key(void) { ARB(P, C, s, o); VF_INPUT(int, k); VF_INPUT(int, g); KNOWN; \
-  unsigned long r = P##_erase_key(&s, &k); NOW(P, s, w); view_t e = sp_erase_key(o, C, k); \
+#define H_ERASE_KEY(P, C, KNOWN) void h_##P##_erase_key(void) { ARB(P, C, s, o); VF_INPUT(int, k); VF_INPUT(int, g); VF_INPUT(unsigned char, p); VF_INPUT_BOOL(alias); CELL_W(alias); KNOWN; \
+  if (alias) { __CPROVER_assume(p < o.n); k = o.a[p]; } /* the key may be a reference to an element of the set itself: s.erase(*it) */ \
+  unsigned long r = P##_erase_key(&s, alias ? &P##_EL(s, p) : &k); NOW(P, s, w); view_t e = sp_erase_key(o, C, k); \
   VF_ASSERT(r == (v_member(o, C, k) ? 1 : 0), "erase(k) returns the number of removed elements: 1 for a member, 0 for an absent key"); \
   VF_ASSERT(v_wf(w, C) && v_eq(w, e), "erase(k): exactly the element equivalent to k is removed, the rest keeps its order (nothing happens for an absent key, with or without a successor)"); \
   VF_ASSERT(v_member(w, C, g) == (v_member(o, C, g) && !equiv(C, g, k)), "erase(k): member'(g) == member(g) && g not equivalent to k, for every key g"); VF_REACH(); }
@@ -320,235 +330,245 @@ _Static_assert(N == 4, "SAME_BYTES enumerates the slots of capacity 4");
   VF_ASSERT(v_member(e, C, g) == (v_member(o, C, g) || gin), "insert(first,last): member'(g) == member(g) || g equivalent to a range element, for every key g"); VF_REACH(); }
 
 /* =================================================================== lemmas ======================================== */
-/*@GROUP name=lemma_insert_lt props=C09 kind=K unwind=6 timeout=100@*/
+/*@GROUP name=lemma_insert_lt props=C09 kind=K unwind=6 solver=kissat@*/
 H_LEMMA_INSERT(lemma_insert_lt, LT)
-/*@GROUP name=lemma_insert_gt props=C09 kind=K unwind=6 timeout=100@*/
+/*@GROUP name=lemma_insert_gt props=C09 kind=K unwind=6 solver=kissat@*/
 H_LEMMA_INSERT(lemma_insert_gt, GT)
-/*@GROUP name=lemma_insert_range_lt props=C09 kind=K unwind=6 timeout=100@*/
+/*@GROUP name=lemma_insert_range_lt props=C09 kind=K unwind=6 solver=kissat@*/
 H_LEMMA_INSERT_RANGE(lemma_insert_range_lt, LT)
-/*@GROUP name=lemma_insert_range_gt props=C09 kind=K unwind=6 timeout=100@*/
+/*@GROUP name=lemma_insert_range_gt props=C09 kind=K unwind=6 solver=kissat@*/
 H_LEMMA_INSERT_RANGE(lemma_insert_range_gt, GT)
 /* =================================================================== static_set ==================================== */
-/*@GROUP name=ss_lookup props=C09,C02 kind=K unwind=6 timeout=100 split=SW:0:7@*/
+/*@GROUP name=ss_lookup props=C09,C02 kind=K unwind=6 solver=kissat split=SW:0:3@*/
 H_LOOKUP(ss, LT)
-/*@GROUP name=ss_observe props=C09,C02 kind=K unwind=6 timeout=100@*/
+/*@GROUP name=ss_observe props=C09,C02 kind=K unwind=6 solver=kissat@*/
 H_OBSERVE_SS(ss, LT)
-/*@GROUP name=ss_default props=C09,C02 kind=K unwind=6 timeout=100@*/
+/*@GROUP name=ss_default props=C09,C02 kind=K unwind=6 solver=kissat@*/
 H_DEFAULT(ss, LT)
-/*@GROUP name=ss_insert props=C09,C02 kind=K unwind=6 timeout=100 split=SW:0:2 unwindset=_ZN3etl6rotateIPiEET_S2_S2_S2_.0:2@*/
+/*@GROUP name=ss_insert props=C09,C02 kind=K unwind=6 solver=kissat split=SW:0:2 unwindset=_ZN3etl6rotateIPiEET_S2_S2_S2_.0:2@*/
 H_INSERT_SS(ss, LT)
-/*@GROUP name=ss_insert_iter props=C09,C02 kind=K unwind=6 timeout=100 split=SW:0:2 unwindset=_ZN3etl6rotateIPiEET_S2_S2_S2_.0:2@*/
+/*@GROUP name=ss_insert_iter props=C09,C02 kind=K unwind=6 solver=kissat split=SW:0:2 unwindset=_ZN3etl6rotateIPiEET_S2_S2_S2_.0:2@*/
 H_INSERT_ITER_SS(ss, LT, VF_KNOWN(C09_ss_insert_dup_null, v_member(o, LT, k)); VF_KNOWN(C09_ss_insert_iter_next, !v_member(o, LT, k)))
-/*@GROUP name=ss_insert_full props=C09,C02 kind=K unwind=6 timeout=100 split=SW:0:2 unwindset=_ZN3etl6rotateIPiEET_S2_S2_S2_.0:2@*/
+/*@GROUP name=ss_insert_full props=C09,C02 kind=K unwind=6 solver=kissat split=SW:0:2 unwindset=_ZN3etl6rotateIPiEET_S2_S2_S2_.0:2@*/
 H_INSERT_FULL_SS(ss, LT)
-/*@GROUP name=ss_insert_range props=C09,C02 kind=K unwind=6 timeout=100 split=SX:0:10 unwindset=_ZN3etl6rotateIPiEET_S2_S2_S2_.0:2@*/
+/*@GROUP name=ss_insert_range props=C09,C02 kind=K unwind=6 solver=kissat split=SX:0:10 unwindset=_ZN3etl6rotateIPiEET_S2_S2_S2_.0:2@*/
 H_INSERT_RANGE(ss, LT)
-/*@GROUP name=ss_ctor_range props=C09,C02 kind=K unwind=6 timeout=100 split=SC:0:4 unwindset=_ZN3etl6rotateIPiEET_S2_S2_S2_.0:2@*/
+/*@GROUP name=ss_ctor_range props=C09,C02 kind=K unwind=6 solver=kissat split=SC:0:4 unwindset=_ZN3etl6rotateIPiEET_S2_S2_S2_.0:2@*/
 H_CTOR_RANGE(ss, LT)
-/*@GROUP name=ss_erase_key props=C09,C02 kind=K unwind=6 timeout=100@*/
-H_ERASE_KEY(ss, LT, VF_KNOWN(C09_ss_erase_key_absent, !v_member(o, LT, k) && v_some_greater(o, k)))
-/*@GROUP name=ss_erase_it props=C09,C02 kind=K unwind=6 timeout=100@*/
+/*@GROUP name=ss_erase_key props=C09,C02 kind=K unwind=6 solver=kissat split=SW:0:1@*/
+H_ERASE_KEY(ss, LT, (void)0)
+/*@GROUP name=ss_erase_it props=C09,C02 kind=K unwind=6 solver=kissat@*/
 H_ERASE_IT_SS(ss, LT)
-/*@GROUP name=ss_erase_range props=C09,C02 kind=K unwind=6 timeout=100@*/
-H_ERASE_RANGE(ss, LT, VF_KNOWN(C09_ss_erase_range_skip, l - f >= 2))
-/*@GROUP name=ss_whole props=C09,C02 kind=K unwind=6 timeout=100 split=SW:0:5@*/
+/*@GROUP name=ss_erase_range props=C09,C02 kind=K unwind=6 solver=kissat@*/
+H_ERASE_RANGE(ss, LT, (void)0)
+/*@GROUP name=ss_whole props=C09,C02 kind=K unwind=6 solver=kissat split=SW:0:5@*/
 H_WHOLE(ss, LT)
-/*@GROUP name=ss_relational props=C09,C02 kind=K unwind=6 timeout=100 split=SW:0:2@*/
+/*@GROUP name=ss_relational props=C09,C02 kind=K unwind=6 solver=kissat split=SW:0:2@*/
 H_RELATIONAL(ss, LT)
-/*@GROUP name=ssg_lookup props=C09,C02 kind=K unwind=6 timeout=100 split=SW:0:7@*/
+/*@GROUP name=ssg_lookup props=C09,C02 kind=K unwind=6 solver=kissat split=SW:0:3@*/
 H_LOOKUP(ssg, GT)
-/*@GROUP name=ssg_observe props=C09,C02 kind=K unwind=6 timeout=100@*/
+/*@GROUP name=ssg_observe props=C09,C02 kind=K unwind=6 solver=kissat@*/
 H_OBSERVE_SS(ssg, GT)
-/*@GROUP name=ssg_default props=C09,C02 kind=K unwind=6 timeout=100@*/
+/*@GROUP name=ssg_default props=C09,C02 kind=K unwind=6 solver=kissat@*/
 H_DEFAULT(ssg, GT)
-/*@GROUP name=ssg_insert props=C09,C02 kind=K unwind=6 timeout=100 split=SW:0:2 unwindset=_ZN3etl6rotateIPiEET_S2_S2_S2_.0:2@*/
+/*@GROUP name=ssg_insert props=C09,C02 kind=K unwind=6 solver=kissat split=SW:0:2 unwindset=_ZN3etl6rotateIPiEET_S2_S2_S2_.0:2@*/
 H_INSERT_SS(ssg, GT)
-/*@GROUP name=ssg_insert_iter props=C09,C02 kind=K unwind=6 timeout=100 split=SW:0:2 unwindset=_ZN3etl6rotateIPiEET_S2_S2_S2_.0:2@*/
+/*@GROUP name=ssg_insert_iter props=C09,C02 kind=K unwind=6 solver=kissat split=SW:0:2 unwindset=_ZN3etl6rotateIPiEET_S2_S2_S2_.0:2 tier=thorough@*/
 H_INSERT_ITER_SS(ssg, GT, VF_KNOWN(C09_ss_insert_dup_null, v_member(o, GT, k)); VF_KNOWN(C09_ss_insert_iter_next, !v_member(o, GT, k)))
-/*@GROUP name=ssg_insert_full props=C09,C02 kind=K unwind=6 timeout=100 split=SW:0:2 unwindset=_ZN3etl6rotateIPiEET_S2_S2_S2_.0:2@*/
+/*@GROUP name=ssg_insert_full props=C09,C02 kind=K unwind=6 solver=kissat split=SW:0:2 unwindset=_ZN3etl6rotateIPiEET_S2_S2_S2_.0:2@*/
 H_INSERT_FULL_SS(ssg, GT)
-/*@GROUP name=ssg_insert_range props=C09,C02 kind=K unwind=6 timeout=100 split=SX:0:10 unwindset=_ZN3etl6rotateIPiEET_S2_S2_S2_.0:2 tier=thorough@*/
+/*@GROUP name=ssg_insert_range props=C09,C02 kind=K unwind=6 solver=kissat split=SX:0:10 unwindset=_ZN3etl6rotateIPiEET_S2_S2_S2_.0:2 tier=thorough@*/
 H_INSERT_RANGE(ssg, GT)
-/*@GROUP name=ssg_ctor_range props=C09,C02 kind=K unwind=6 timeout=100 split=SC:0:4 unwindset=_ZN3etl6rotateIPiEET_S2_S2_S2_.0:2 tier=thorough@*/
+/*@GROUP name=ssg_ctor_range props=C09,C02 kind=K unwind=6 solver=kissat split=SC:0:4 unwindset=_ZN3etl6rotateIPiEET_S2_S2_S2_.0:2 tier=thorough@*/
 H_CTOR_RANGE(ssg, GT)
-/*@GROUP name=ssg_erase_key props=C09,C02 kind=K unwind=6 timeout=100@*/
-H_ERASE_KEY(ssg, GT, VF_KNOWN(C09_ss_erase_key_absent, !v_member(o, GT, k) && v_some_greater(o, k)); VF_KNOWN(C09_ss_erase_key_compare, v_member(o, GT, k) && o.n >= 2))
-/*@GROUP name=ssg_erase_it props=C09,C02 kind=K unwind=6 timeout=100@*/
+/*@GROUP name=ssg_erase_key props=C09,C02 kind=K unwind=6 solver=kissat split=SW:0:1@*/
+H_ERASE_KEY(ssg, GT, (void)0)
+/*@GROUP name=ssg_erase_it props=C09,C02 kind=K unwind=6 solver=kissat@*/
 H_ERASE_IT_SS(ssg, GT)
-/*@GROUP name=ssg_erase_range props=C09,C02 kind=K unwind=6 timeout=100@*/
-H_ERASE_RANGE(ssg, GT, VF_KNOWN(C09_ss_erase_range_skip, l - f >= 2))
-/*@GROUP name=ssg_whole props=C09,C02 kind=K unwind=6 timeout=100 split=SW:0:5@*/
+/*@GROUP name=ssg_erase_range props=C09,C02 kind=K unwind=6 solver=kissat@*/
+H_ERASE_RANGE(ssg, GT, (void)0)
+/*@GROUP name=ssg_whole props=C09,C02 kind=K unwind=6 solver=kissat split=SW:0:5@*/
 H_WHOLE(ssg, GT)
-/*@GROUP name=ssg_relational props=C09,C02 kind=K unwind=6 timeout=100 split=SW:0:2@*/
+/*@GROUP name=ssg_relational props=C09,C02 kind=K unwind=6 solver=kissat split=SW:0:2@*/
 H_RELATIONAL(ssg, GT)
-/*@GROUP name=sst_lookup props=C09,C02 kind=K unwind=6 timeout=100 split=SW:0:7@*/
+/*@GROUP name=sst_lookup props=C09,C02 kind=K unwind=6 solver=kissat split=SW:0:3@*/
 H_LOOKUP(sst, LT)
-/*@GROUP name=sst_observe props=C09,C02 kind=K unwind=6 timeout=100@*/
+/*@GROUP name=sst_observe props=C09,C02 kind=K unwind=6 solver=kissat@*/
 H_OBSERVE_SS(sst, LT)
-/*@GROUP name=sst_default props=C09,C02 kind=K unwind=6 timeout=100@*/
+/*@GROUP name=sst_default props=C09,C02 kind=K unwind=6 solver=kissat@*/
 H_DEFAULT(sst, LT)
-/*@GROUP name=sst_insert props=C09,C02 kind=K unwind=6 timeout=100 split=SW:0:2 unwindset=_ZN3etl6rotateIPiEET_S2_S2_S2_.0:2@*/
+/*@GROUP name=sst_insert props=C09,C02 kind=K unwind=6 solver=kissat split=SW:0:2 unwindset=_ZN3etl6rotateIPiEET_S2_S2_S2_.0:2@*/
 H_INSERT_SS(sst, LT)
-/*@GROUP name=sst_insert_iter props=C09,C02 kind=K unwind=6 timeout=100 split=SW:0:2 unwindset=_ZN3etl6rotateIPiEET_S2_S2_S2_.0:2@*/
+/*@GROUP name=sst_insert_iter props=C09,C02 kind=K unwind=6 solver=kissat split=SW:0:2 unwindset=_ZN3etl6rotateIPiEET_S2_S2_S2_.0:2 tier=thorough@*/
 H_INSERT_ITER_SS(sst, LT, VF_KNOWN(C09_ss_insert_dup_null, v_member(o, LT, k)); VF_KNOWN(C09_ss_insert_iter_next, !v_member(o, LT, k)))
-/*@GROUP name=sst_insert_full props=C09,C02 kind=K unwind=6 timeout=100 split=SW:0:2 unwindset=_ZN3etl6rotateIPiEET_S2_S2_S2_.0:2@*/
+/*@GROUP name=sst_insert_full props=C09,C02 kind=K unwind=6 solver=kissat split=SW:0:2 unwindset=_ZN3etl6rotateIPiEET_S2_S2_S2_.0:2@*/
 H_INSERT_FULL_SS(sst, LT)
-/*@GROUP name=sst_insert_range props=C09,C02 kind=K unwind=6 timeout=100 split=SX:0:10 unwindset=_ZN3etl6rotateIPiEET_S2_S2_S2_.0:2 tier=thorough@*/
+/*@GROUP name=sst_insert_range props=C09,C02 kind=K unwind=6 solver=kissat split=SX:0:10 unwindset=_ZN3etl6rotateIPiEET_S2_S2_S2_.0:2 tier=thorough@*/
 H_INSERT_RANGE(sst, LT)
-/*@GROUP name=sst_ctor_range props=C09,C02 kind=K unwind=6 timeout=100 split=SC:0:4 unwindset=_ZN3etl6rotateIPiEET_S2_S2_S2_.0:2 tier=thorough@*/
+/*@GROUP name=sst_ctor_range props=C09,C02 kind=K unwind=6 solver=kissat split=SC:0:4 unwindset=_ZN3etl6rotateIPiEET_S2_S2_S2_.0:2 tier=thorough@*/
 H_CTOR_RANGE(sst, LT)
-/*@GROUP name=sst_erase_key props=C09,C02 kind=K unwind=6 timeout=100@*/
-H_ERASE_KEY(sst, LT, VF_KNOWN(C09_ss_erase_key_absent, !v_member(o, LT, k) && v_some_greater(o, k)))
-/*@GROUP name=sst_erase_it props=C09,C02 kind=K unwind=6 timeout=100@*/
+/*@GROUP name=sst_erase_key props=C09,C02 kind=K unwind=6 solver=kissat split=SW:0:1@*/
+H_ERASE_KEY(sst, LT, (void)0)
+/*@GROUP name=sst_erase_it props=C09,C02 kind=K unwind=6 solver=kissat@*/
 H_ERASE_IT_SS(sst, LT)
-/*@GROUP name=sst_erase_range props=C09,C02 kind=K unwind=6 timeout=100@*/
-H_ERASE_RANGE(sst, LT, VF_KNOWN(C09_ss_erase_range_skip, l - f >= 2))
-/*@GROUP name=sst_whole props=C09,C02 kind=K unwind=6 timeout=100 split=SW:0:5@*/
+/*@GROUP name=sst_erase_range props=C09,C02 kind=K unwind=6 solver=kissat@*/
+H_ERASE_RANGE(sst, LT, (void)0)
+/*@GROUP name=sst_whole props=C09,C02 kind=K unwind=6 solver=kissat split=SW:0:5@*/
 H_WHOLE(sst, LT)
-/*@GROUP name=sst_relational props=C09,C02 kind=K unwind=6 timeout=100 split=SW:0:2@*/
+/*@GROUP name=sst_relational props=C09,C02 kind=K unwind=6 solver=kissat split=SW:0:2@*/
 H_RELATIONAL(sst, LT)
-/*@GROUP name=sst_lookup_h props=C09,C02 kind=K unwind=6 timeout=100 split=SW:0:7@*/
-H_LOOKUP_H(sst, LT, VF_KNOWN(C09_ss_find_transparent, o.n > 0 && o.a[0] <= k))
+/*@GROUP name=sst_lookup_h props=C09,C02 kind=K unwind=6 solver=kissat split=SW:0:1@*/
+H_LOOKUP_H(sst, LT)
+/*@GROUP name=sst_find_h props=C09,C02 kind=K unwind=6 solver=kissat split=SW:0:1@*/
+H_FIND_H(sst, LT, VF_KNOWN(C09_ss_find_transparent, o.n > 0 && o.a[0] <= k))
 /* =================================================================== flat_set over static_vector ================== */
-/*@GROUP name=fs_lookup props=C09,C02 kind=K unwind=6 timeout=100 split=SW:0:7@*/
+/*@GROUP name=fs_lookup props=C09,C02 kind=K unwind=6 solver=kissat split=SW:0:3@*/
 H_LOOKUP(fs, LT)
-/*@GROUP name=fs_equal_range props=C09,C02 kind=K unwind=6 timeout=100 split=SW:0:1@*/
+/*@GROUP name=fs_equal_range props=C09,C02 kind=K unwind=6 solver=kissat split=SW:0:1@*/
 H_EQUAL_RANGE(fs, LT)
-/*@GROUP name=fs_observe props=C09,C02 kind=K unwind=6 timeout=100@*/
+/*@GROUP name=fs_observe props=C09,C02 kind=K unwind=6 solver=kissat@*/
 H_OBSERVE_FS(fs, LT)
-/*@GROUP name=fs_default props=C09,C02 kind=K unwind=6 timeout=100@*/
+/*@GROUP name=fs_default props=C09,C02 kind=K unwind=6 solver=kissat@*/
 H_DEFAULT(fs, LT)
-/*@GROUP name=fs_insert props=C09,C02 kind=K unwind=6 timeout=100 split=SW:0:5 unwindset=_ZN3etl6rotateIPiEET_S2_S2_S2_.0:2@*/
+/*@GROUP name=fs_insert props=C09,C02 kind=K unwind=6 solver=kissat split=SW:0:2 unwindset=_ZN3etl6rotateIPiEET_S2_S2_S2_.0:2@*/
 H_INSERT_FS(fs, LT)
-/*@GROUP name=fs_insert_full props=C09,C02,C05 kind=K unwind=6 timeout=100 split=SW:0:5 unwindset=_ZN3etl6rotateIPiEET_S2_S2_S2_.0:2@*/
+/*@GROUP name=fs_insert_hint props=C09,C02 kind=K unwind=6 solver=kissat split=SW:3:5 unwindset=_ZN3etl6rotateIPiEET_S2_S2_S2_.0:2 tier=thorough@*/
+H_INSERT_HINT_FS(fs, LT)
+/*@GROUP name=fs_insert_full props=C09,C02,C05 kind=K unwind=6 solver=kissat split=SW:0:5 unwindset=_ZN3etl6rotateIPiEET_S2_S2_S2_.0:2@*/
 H_INSERT_FULL_FS(fs, LT)
-/*@GROUP name=fs_insert_range props=C09,C02 kind=K unwind=6 timeout=100 split=SX:0:10 unwindset=_ZN3etl6rotateIPiEET_S2_S2_S2_.0:2@*/
+/*@GROUP name=fs_insert_range props=C09,C02 kind=K unwind=6 solver=kissat split=SX:0:10 unwindset=_ZN3etl6rotateIPiEET_S2_S2_S2_.0:2 tier=thorough@*/
 H_INSERT_RANGE(fs, LT)
-/*@GROUP name=fs_ctor_range props=C09,C02 kind=K unwind=6 timeout=100 split=SC:0:4 unwindset=_ZN3etl6rotateIPiEET_S2_S2_S2_.0:2@*/
+/*@GROUP name=fs_ctor_range props=C09,C02 kind=K unwind=6 solver=kissat split=SC:0:4 unwindset=_ZN3etl6rotateIPiEET_S2_S2_S2_.0:2 tier=thorough@*/
 H_CTOR_RANGE(fs, LT)
-/*@GROUP name=fs_ctor_cont props=C09,C02 kind=K unwind=6 timeout=100 split=SC:0:4 unwindset=_ZN3etl6rotateIPiEET_S2_S2_S2_.0:2@*/
+/*@GROUP name=fs_ctor_cont props=C09,C02 kind=K unwind=6 solver=kissat split=SC:0:4 unwindset=_ZN3etl6rotateIPiEET_S2_S2_S2_.0:2@*/
 H_CTOR_CONT(fs, LT)
-/*@GROUP name=fs_ctor_sorted props=C09,C02 kind=K unwind=6 timeout=100@*/
+/*@GROUP name=fs_ctor_sorted props=C09,C02 kind=K unwind=6 solver=kissat@*/
 H_CTOR_SORTED(fs, LT)
-/*@GROUP name=fs_ctor_sorted_range props=C09,C02 kind=K unwind=6 timeout=100@*/
+/*@GROUP name=fs_ctor_sorted_range props=C09,C02 kind=K unwind=6 solver=kissat@*/
 H_CTOR_SORTED_RANGE(fs, LT)
-/*@GROUP name=fs_extract props=C09,C02 kind=K unwind=6 timeout=100@*/
+/*@GROUP name=fs_extract props=C09,C02 kind=K unwind=6 solver=kissat@*/
 H_EXTRACT(fs, LT, VF_KNOWN(C09_fs_extract_empty, o.n > 0))
-/*@GROUP name=fs_replace props=C09,C02 kind=K unwind=6 timeout=100@*/
+/*@GROUP name=fs_replace props=C09,C02 kind=K unwind=6 solver=kissat@*/
 H_REPLACE(fs, LT)
-/*@GROUP name=fs_erase_key props=C09,C02 kind=K unwind=6 timeout=100@*/
+/*@GROUP name=fs_erase_key props=C09,C02 kind=K unwind=6 solver=kissat split=SW:0:1@*/
 H_ERASE_KEY(fs, LT, (void)0)
-/*@GROUP name=fs_erase_it props=C09,C02 kind=K unwind=6 timeout=100@*/
+/*@GROUP name=fs_erase_it props=C09,C02 kind=K unwind=6 solver=kissat@*/
 H_ERASE_IT_FS(fs, LT)
-/*@GROUP name=fs_erase_range props=C09,C02 kind=K unwind=6 timeout=100@*/
+/*@GROUP name=fs_erase_range props=C09,C02 kind=K unwind=6 solver=kissat@*/
 H_ERASE_RANGE(fs, LT, (void)0)
-/*@GROUP name=fs_erase_if props=C09,C02 kind=K unwind=6 timeout=100@*/
+/*@GROUP name=fs_erase_if props=C09,C02 kind=K unwind=6 solver=kissat@*/
 H_ERASE_IF(fs, LT)
-/*@GROUP name=fs_whole props=C09,C02 kind=K unwind=6 timeout=100 split=SW:0:5@*/
+/*@GROUP name=fs_whole props=C09,C02 kind=K unwind=6 solver=kissat split=SW:0:5@*/
 H_WHOLE(fs, LT)
-/*@GROUP name=fs_relational props=C09,C02 kind=K unwind=6 timeout=100 split=SW:0:2@*/
+/*@GROUP name=fs_relational props=C09,C02 kind=K unwind=6 solver=kissat split=SW:0:2@*/
 H_RELATIONAL(fs, LT)
-/*@GROUP name=fsg_lookup props=C09,C02 kind=K unwind=6 timeout=100 split=SW:0:7@*/
+/*@GROUP name=fsg_lookup props=C09,C02 kind=K unwind=6 solver=kissat split=SW:0:3@*/
 H_LOOKUP(fsg, GT)
-/*@GROUP name=fsg_equal_range props=C09,C02 kind=K unwind=6 timeout=100 split=SW:0:1@*/
+/*@GROUP name=fsg_equal_range props=C09,C02 kind=K unwind=6 solver=kissat split=SW:0:1@*/
 H_EQUAL_RANGE(fsg, GT)
-/*@GROUP name=fsg_observe props=C09,C02 kind=K unwind=6 timeout=100@*/
+/*@GROUP name=fsg_observe props=C09,C02 kind=K unwind=6 solver=kissat@*/
 H_OBSERVE_FS(fsg, GT)
-/*@GROUP name=fsg_default props=C09,C02 kind=K unwind=6 timeout=100@*/
+/*@GROUP name=fsg_default props=C09,C02 kind=K unwind=6 solver=kissat@*/
 H_DEFAULT(fsg, GT)
-/*@GROUP name=fsg_insert props=C09,C02 kind=K unwind=6 timeout=100 split=SW:0:5 unwindset=_ZN3etl6rotateIPiEET_S2_S2_S2_.0:2@*/
+/*@GROUP name=fsg_insert props=C09,C02 kind=K unwind=6 solver=kissat split=SW:0:2 unwindset=_ZN3etl6rotateIPiEET_S2_S2_S2_.0:2@*/
 H_INSERT_FS(fsg, GT)
-/*@GROUP name=fsg_insert_full props=C09,C02,C05 kind=K unwind=6 timeout=100 split=SW:0:5 unwindset=_ZN3etl6rotateIPiEET_S2_S2_S2_.0:2@*/
+/*@GROUP name=fsg_insert_hint props=C09,C02 kind=K unwind=6 solver=kissat split=SW:3:5 unwindset=_ZN3etl6rotateIPiEET_S2_S2_S2_.0:2 tier=thorough@*/
+H_INSERT_HINT_FS(fsg, GT)
+/*@GROUP name=fsg_insert_full props=C09,C02,C05 kind=K unwind=6 solver=kissat split=SW:0:5 unwindset=_ZN3etl6rotateIPiEET_S2_S2_S2_.0:2@*/
 H_INSERT_FULL_FS(fsg, GT)
-/*@GROUP name=fsg_insert_range props=C09,C02 kind=K unwind=6 timeout=100 split=SX:0:10 unwindset=_ZN3etl6rotateIPiEET_S2_S2_S2_.0:2 tier=thorough@*/
+/*@GROUP name=fsg_insert_range props=C09,C02 kind=K unwind=6 solver=kissat split=SX:0:10 unwindset=_ZN3etl6rotateIPiEET_S2_S2_S2_.0:2 tier=thorough@*/
 H_INSERT_RANGE(fsg, GT)
-/*@GROUP name=fsg_ctor_range props=C09,C02 kind=K unwind=6 timeout=100 split=SC:0:4 unwindset=_ZN3etl6rotateIPiEET_S2_S2_S2_.0:2 tier=thorough@*/
+/*@GROUP name=fsg_ctor_range props=C09,C02 kind=K unwind=6 solver=kissat split=SC:0:4 unwindset=_ZN3etl6rotateIPiEET_S2_S2_S2_.0:2 tier=thorough@*/
 H_CTOR_RANGE(fsg, GT)
-/*@GROUP name=fsg_ctor_cont props=C09,C02 kind=K unwind=6 timeout=100 split=SC:0:4 unwindset=_ZN3etl6rotateIPiEET_S2_S2_S2_.0:2@*/
+/*@GROUP name=fsg_ctor_cont props=C09,C02 kind=K unwind=6 solver=kissat split=SC:0:4 unwindset=_ZN3etl6rotateIPiEET_S2_S2_S2_.0:2 tier=thorough@*/
 H_CTOR_CONT(fsg, GT)
-/*@GROUP name=fsg_ctor_sorted props=C09,C02 kind=K unwind=6 timeout=100@*/
+/*@GROUP name=fsg_ctor_sorted props=C09,C02 kind=K unwind=6 solver=kissat@*/
 H_CTOR_SORTED(fsg, GT)
-/*@GROUP name=fsg_ctor_sorted_range props=C09,C02 kind=K unwind=6 timeout=100@*/
+/*@GROUP name=fsg_ctor_sorted_range props=C09,C02 kind=K unwind=6 solver=kissat@*/
 H_CTOR_SORTED_RANGE(fsg, GT)
-/*@GROUP name=fsg_extract props=C09,C02 kind=K unwind=6 timeout=100@*/
+/*@GROUP name=fsg_extract props=C09,C02 kind=K unwind=6 solver=kissat@*/
 H_EXTRACT(fsg, GT, VF_KNOWN(C09_fs_extract_empty, o.n > 0))
-/*@GROUP name=fsg_replace props=C09,C02 kind=K unwind=6 timeout=100@*/
+/*@GROUP name=fsg_replace props=C09,C02 kind=K unwind=6 solver=kissat@*/
 H_REPLACE(fsg, GT)
-/*@GROUP name=fsg_erase_key props=C09,C02 kind=K unwind=6 timeout=100@*/
+/*@GROUP name=fsg_erase_key props=C09,C02 kind=K unwind=6 solver=kissat split=SW:0:1@*/
 H_ERASE_KEY(fsg, GT, (void)0)
-/*@GROUP name=fsg_erase_it props=C09,C02 kind=K unwind=6 timeout=100@*/
+/*@GROUP name=fsg_erase_it props=C09,C02 kind=K unwind=6 solver=kissat@*/
 H_ERASE_IT_FS(fsg, GT)
-/*@GROUP name=fsg_erase_range props=C09,C02 kind=K unwind=6 timeout=100@*/
+/*@GROUP name=fsg_erase_range props=C09,C02 kind=K unwind=6 solver=kissat@*/
 H_ERASE_RANGE(fsg, GT, (void)0)
-/*@GROUP name=fsg_erase_if props=C09,C02 kind=K unwind=6 timeout=100@*/
+/*@GROUP name=fsg_erase_if props=C09,C02 kind=K unwind=6 solver=kissat@*/
 H_ERASE_IF(fsg, GT)
-/*@GROUP name=fsg_whole props=C09,C02 kind=K unwind=6 timeout=100 split=SW:0:5@*/
+/*@GROUP name=fsg_whole props=C09,C02 kind=K unwind=6 solver=kissat split=SW:0:5@*/
 H_WHOLE(fsg, GT)
-/*@GROUP name=fsg_relational props=C09,C02 kind=K unwind=6 timeout=100 split=SW:0:2@*/
+/*@GROUP name=fsg_relational props=C09,C02 kind=K unwind=6 solver=kissat split=SW:0:2@*/
 H_RELATIONAL(fsg, GT)
-/*@GROUP name=fst_lookup props=C09,C02 kind=K unwind=6 timeout=100 split=SW:0:7@*/
+/*@GROUP name=fst_lookup props=C09,C02 kind=K unwind=6 solver=kissat split=SW:0:3@*/
 H_LOOKUP(fst, LT)
-/*@GROUP name=fst_equal_range props=C09,C02 kind=K unwind=6 timeout=100 split=SW:0:1@*/
+/*@GROUP name=fst_equal_range props=C09,C02 kind=K unwind=6 solver=kissat split=SW:0:1@*/
 H_EQUAL_RANGE(fst, LT)
-/*@GROUP name=fst_observe props=C09,C02 kind=K unwind=6 timeout=100@*/
+/*@GROUP name=fst_observe props=C09,C02 kind=K unwind=6 solver=kissat@*/
 H_OBSERVE_FS(fst, LT)
-/*@GROUP name=fst_default props=C09,C02 kind=K unwind=6 timeout=100@*/
+/*@GROUP name=fst_default props=C09,C02 kind=K unwind=6 solver=kissat@*/
 H_DEFAULT(fst, LT)
-/*@GROUP name=fst_insert props=C09,C02 kind=K unwind=6 timeout=100 split=SW:0:5 unwindset=_ZN3etl6rotateIPiEET_S2_S2_S2_.0:2@*/
+/*@GROUP name=fst_insert props=C09,C02 kind=K unwind=6 solver=kissat split=SW:0:2 unwindset=_ZN3etl6rotateIPiEET_S2_S2_S2_.0:2@*/
 H_INSERT_FS(fst, LT)
-/*@GROUP name=fst_insert_full props=C09,C02,C05 kind=K unwind=6 timeout=100 split=SW:0:5 unwindset=_ZN3etl6rotateIPiEET_S2_S2_S2_.0:2@*/
+/*@GROUP name=fst_insert_hint props=C09,C02 kind=K unwind=6 solver=kissat split=SW:3:5 unwindset=_ZN3etl6rotateIPiEET_S2_S2_S2_.0:2 tier=thorough@*/
+H_INSERT_HINT_FS(fst, LT)
+/*@GROUP name=fst_insert_full props=C09,C02,C05 kind=K unwind=6 solver=kissat split=SW:0:5 unwindset=_ZN3etl6rotateIPiEET_S2_S2_S2_.0:2@*/
 H_INSERT_FULL_FS(fst, LT)
-/*@GROUP name=fst_insert_range props=C09,C02 kind=K unwind=6 timeout=100 split=SX:0:10 unwindset=_ZN3etl6rotateIPiEET_S2_S2_S2_.0:2 tier=thorough@*/
+/*@GROUP name=fst_insert_range props=C09,C02 kind=K unwind=6 solver=kissat split=SX:0:10 unwindset=_ZN3etl6rotateIPiEET_S2_S2_S2_.0:2 tier=thorough@*/
 H_INSERT_RANGE(fst, LT)
-/*@GROUP name=fst_ctor_range props=C09,C02 kind=K unwind=6 timeout=100 split=SC:0:4 unwindset=_ZN3etl6rotateIPiEET_S2_S2_S2_.0:2 tier=thorough@*/
+/*@GROUP name=fst_ctor_range props=C09,C02 kind=K unwind=6 solver=kissat split=SC:0:4 unwindset=_ZN3etl6rotateIPiEET_S2_S2_S2_.0:2 tier=thorough@*/
 H_CTOR_RANGE(fst, LT)
-/*@GROUP name=fst_ctor_cont props=C09,C02 kind=K unwind=6 timeout=100 split=SC:0:4 unwindset=_ZN3etl6rotateIPiEET_S2_S2_S2_.0:2@*/
+/*@GROUP name=fst_ctor_cont props=C09,C02 kind=K unwind=6 solver=kissat split=SC:0:4 unwindset=_ZN3etl6rotateIPiEET_S2_S2_S2_.0:2 tier=thorough@*/
 H_CTOR_CONT(fst, LT)
-/*@GROUP name=fst_ctor_sorted props=C09,C02 kind=K unwind=6 timeout=100@*/
+/*@GROUP name=fst_ctor_sorted props=C09,C02 kind=K unwind=6 solver=kissat@*/
 H_CTOR_SORTED(fst, LT)
-/*@GROUP name=fst_ctor_sorted_range props=C09,C02 kind=K unwind=6 timeout=100@*/
+/*@GROUP name=fst_ctor_sorted_range props=C09,C02 kind=K unwind=6 solver=kissat@*/
 H_CTOR_SORTED_RANGE(fst, LT)
-/*@GROUP name=fst_extract props=C09,C02 kind=K unwind=6 timeout=100@*/
+/*@GROUP name=fst_extract props=C09,C02 kind=K unwind=6 solver=kissat@*/
 H_EXTRACT(fst, LT, VF_KNOWN(C09_fs_extract_empty, o.n > 0))
-/*@GROUP name=fst_replace props=C09,C02 kind=K unwind=6 timeout=100@*/
+/*@GROUP name=fst_replace props=C09,C02 kind=K unwind=6 solver=kissat@*/
 H_REPLACE(fst, LT)
-/*@GROUP name=fst_erase_key props=C09,C02 kind=K unwind=6 timeout=100@*/
+/*@GROUP name=fst_erase_key props=C09,C02 kind=K unwind=6 solver=kissat split=SW:0:1@*/
 H_ERASE_KEY(fst, LT, (void)0)
-/*@GROUP name=fst_erase_it props=C09,C02 kind=K unwind=6 timeout=100@*/
+/*@GROUP name=fst_erase_it props=C09,C02 kind=K unwind=6 solver=kissat@*/
 H_ERASE_IT_FS(fst, LT)
-/*@GROUP name=fst_erase_range props=C09,C02 kind=K unwind=6 timeout=100@*/
+/*@GROUP name=fst_erase_range props=C09,C02 kind=K unwind=6 solver=kissat@*/
 H_ERASE_RANGE(fst, LT, (void)0)
-/*@GROUP name=fst_erase_if props=C09,C02 kind=K unwind=6 timeout=100@*/
+/*@GROUP name=fst_erase_if props=C09,C02 kind=K unwind=6 solver=kissat@*/
 H_ERASE_IF(fst, LT)
-/*@GROUP name=fst_whole props=C09,C02 kind=K unwind=6 timeout=100 split=SW:0:5@*/
+/*@GROUP name=fst_whole props=C09,C02 kind=K unwind=6 solver=kissat split=SW:0:5@*/
 H_WHOLE(fst, LT)
-/*@GROUP name=fst_relational props=C09,C02 kind=K unwind=6 timeout=100 split=SW:0:2@*/
+/*@GROUP name=fst_relational props=C09,C02 kind=K unwind=6 solver=kissat split=SW:0:2@*/
 H_RELATIONAL(fst, LT)
-/*@GROUP name=fst_lookup_h props=C09,C02 kind=K unwind=6 timeout=100 split=SW:0:7@*/
-H_LOOKUP_H(fst, LT, (void)0)
-/*@GROUP name=fst_equal_range_h props=C09,C02 kind=K unwind=6 timeout=100 split=SW:0:1@*/
+/*@GROUP name=fst_lookup_h props=C09,C02 kind=K unwind=6 solver=kissat split=SW:0:1@*/
+H_LOOKUP_H(fst, LT)
+/*@GROUP name=fst_find_h props=C09,C02 kind=K unwind=6 solver=kissat split=SW:0:1@*/
+H_FIND_H(fst, LT, (void)0)
+/*@GROUP name=fst_equal_range_h props=C09,C02 kind=K unwind=6 solver=kissat split=SW:0:1@*/
 H_EQUAL_RANGE_H(fst, LT)
 /* =================================================================== flat_set over inplace_vector (no modifiers: inplace_vector has no emplace(pos)/erase/assignment/rbegin) */
-/*@GROUP name=fsi_lookup props=C09,C02 kind=K unwind=6 timeout=100 split=SW:0:7@*/
+/*@GROUP name=fsi_lookup props=C09,C02 kind=K unwind=6 solver=kissat split=SW:0:3@*/
 H_LOOKUP(fsi, LT)
-/*@GROUP name=fsi_equal_range props=C09,C02 kind=K unwind=6 timeout=100 split=SW:0:1@*/
+/*@GROUP name=fsi_equal_range props=C09,C02 kind=K unwind=6 solver=kissat split=SW:0:1@*/
 H_EQUAL_RANGE(fsi, LT)
-/*@GROUP name=fsi_observe props=C09,C02 kind=K unwind=6 timeout=100@*/
+/*@GROUP name=fsi_observe props=C09,C02 kind=K unwind=6 solver=kissat@*/
 H_OBSERVE_FSI(fsi, LT)
-/*@GROUP name=fsi_default props=C09,C02 kind=K unwind=6 timeout=100@*/
+/*@GROUP name=fsi_default props=C09,C02 kind=K unwind=6 solver=kissat@*/
 H_DEFAULT(fsi, LT)
-/*@GROUP name=fsi_ctor_sorted props=C09,C02 kind=K unwind=6 timeout=100@*/
+/*@GROUP name=fsi_ctor_sorted props=C09,C02 kind=K unwind=6 solver=kissat@*/
 H_CTOR_SORTED(fsi, LT)
-/*@GROUP name=fsi_extract props=C09,C02 kind=K unwind=6 timeout=100@*/
+/*@GROUP name=fsi_extract props=C09,C02 kind=K unwind=6 solver=kissat@*/
 H_EXTRACT(fsi, LT, VF_KNOWN(C09_fs_extract_empty, o.n > 0))
-/*@GROUP name=fsi_clear props=C09,C02 kind=K unwind=6 timeout=100@*/
+/*@GROUP name=fsi_clear props=C09,C02 kind=K unwind=6 solver=kissat@*/
 H_CLEAR(fsi, LT)
-/*@GROUP name=fsi_relational props=C09,C02 kind=K unwind=6 timeout=100 split=SW:0:2@*/
+/*@GROUP name=fsi_relational props=C09,C02 kind=K unwind=6 solver=kissat split=SW:0:2@*/
 H_RELATIONAL(fsi, LT)
 /* =================================================================== flat_multiset ================================= */
-/*@GROUP name=fm_ctor props=C09,C02 kind=K unwind=20 timeout=100@*/
+/*@GROUP name=fm_ctor props=C09,C02 kind=K unwind=20 solver=kissat@*/
 H_MULTI(fm, LT)
-/*@GROUP name=fmg_ctor props=C09,C02 kind=K unwind=20 timeout=100@*/
+/*@GROUP name=fmg_ctor props=C09,C02 kind=K unwind=20 solver=kissat@*/
 H_MULTI(fmg, GT)
-/*@GROUP name=fmi_ctor props=C09,C02 kind=K unwind=20 timeout=100@*/
+/*@GROUP name=fmi_ctor props=C09,C02 kind=K unwind=20 solver=kissat@*/
 H_MULTI(fmi, LT)
